@@ -43,14 +43,14 @@ class JobModel:
             v = round(v * self.ties) / self.ties
         return sign * v
 
-    def report_dict(self, config, level):
+    def report_dict(self, config, level, start_level=1):
         hk = hp_key(config, self.space_keys)
         d = {RESOURCE_ATTR: level}
         for name, sign in zip(self.metric_names, self.signs):
             d[name] = self.value(hk, level, name, sign)
         if self.s.get("cost", False):
             c = 0.0
-            for l in range(1, level + 1):
+            for l in range(start_level, level + 1):  # cost since the start of this run
                 c += 0.25 + hfloat(self.table_seed, "cost", hk, l)
             d[COST_ATTR] = c
         ex = self.s.get("extra", None)
@@ -175,7 +175,7 @@ class WorkerRun:
             self.sink.emit(self.trial_id, line)
         if job.checkpointing:
             self.sink.write_ckpt(self.trial_id, self.level)
-        rd = job.report_dict(self.config, self.level)
+        rd = job.report_dict(self.config, self.level, self.start_level)
         sim.serial = getattr(sim, "serial", 0) + 1
         rd["sn"] = sim.serial  # unique serial: lets oracles attribute every delivered result to one report
         buf = io.StringIO()
